@@ -77,7 +77,7 @@ func (fg *FnGen) step(fr *Frame, b *ssa.BasicBlock, ins ssa.Instruction, st *Sta
 		elem := x.Type().Underlying().(*types.Pointer).Elem()
 		fg.freshSubObjects(ref, elem, 0)
 		if (!x.Heap || capturedReadOnly(x)) && fr.top && !fg.noDefs {
-			fg.stackCells = append(fg.stackCells, stackCell{ref: ref, ty: elem})
+			fg.stackCells = append(fg.stackCells, stackCell{ref: ref, ty: elem, src: x})
 		}
 		fg.storeValue(st, ref, elem, ti.zeroOf(elem))
 		if fr.top && x.Comment != "" && !strings.ContainsAny(x.Comment, " .[]()") {
